@@ -312,7 +312,8 @@ def audit(res, facts, entries):
         tr = i.get("trait_ref")
         if tr is None:
             # inherent impl: must not contain constructors
-            fns = [it for it in i["items"] if it.get("kind", "").startswith("Fn") or "sig" in it]
+            # only functions a client can call matter (a private helper cannot be used to build a key from outside)
+            fns = [it for it in i["items"] if (it.get("kind", "").startswith("Fn") or "sig" in it) and it.get("vis") == "pub"]
             res.oblige(not fns)
             if fns:
                 res.violate("C19.R2", st, "inherent fn " + fns[0]["name"], "unexpected inherent function on a key type (not in the audited table)", file=facts.rel(i["file"]), line=i["line"])
